@@ -18,4 +18,4 @@ try:
     if r.returncode == 0: print('    *** MISSED ***')
     elif 'could not compile' in out: print('    (did not compile)'); print(out[-1500:])
 finally:
-    subprocess.run(['git', '-C', repo, 'checkout', '--', path])
+    open(p, 'w').write(s)        # restore the file as it was
